@@ -660,6 +660,49 @@ def negative_limit_scan(ck):
                       "replay": "harness readfuzz --cases (probe/loki_range with limit=-5): status 200 and one statement issued"})
 
 
+INDEX_FINDING = "json-index-part-printed-as-key"
+
+
+def json_index_scan(ck):
+    """`| json x="a[0]"` on the line {"a":[5]}: the in-process walker reads [0] as the first item of an array (typed path part,
+    model PIdx) and assigns x="5", as LogQL does.  What does the ClickHouse path send?  JSONExtract*(json, indices_or_keys...):
+    a String argument is an object KEY, an Integer argument is an array INDEX counted from 1 (ClickHouse documentation of
+    the JSON functions).  The statement is planned by the real ClickHouse planner; the path arguments are read off its text."""
+    line = '{"a":[5],"b":{"1":"k"}}'
+    base = 1700000000 * 10 ** 9
+    cases = [{"id": 1, "mode": "sql", "class": "sql", "query": '{app="x"} | json x="a[0]"', "from": base, "to": base + 60 * 10 ** 9, "limit": 10, "out": {"err": ""}},
+             {"id": 2, "class": "log", "query": '{app="x"} | line_format "{{._entry}}" | json x="a[0]"', "from": base, "to": base + 60 * 10 ** 9, "limit": 10, "out": {"err": ""},
+              "in": [[{"ts": base + 1, "fp": 7, "labels": {"app": "x"}, "msg": binascii.hexlify(line.encode()).decode(), "val": "0x0p+00", "err": ""},
+                      {"ts": 0, "fp": 0, "labels": None, "msg": "", "val": "0x0p+00", "err": "eof"}]]}]
+    inp = os.path.join(ck.work, "jsonidx_in.jsonl")
+    outp = os.path.join(ck.work, "jsonidx.jsonl")
+    open(inp, "w").write("".join(json.dumps(c) + "\n" for c in cases))
+    rc, out = ck.go_run("inteng", ["--cases", inp, "--out", outp])
+    if rc != 0:
+        ck.obligation("harness inteng planned the json index query on both engines", False, out[-1500:])
+        return
+    res = [json.loads(l) for l in open(outp)]
+    sql = res[0].get("sql") or ""
+    ents = [e for e in (res[1]["out"].get("entries") or []) if e["err"] == ""]
+    inproc = ents[0].get("labels") if ents else None
+    ck.obligation("in process `| json x=\"a[0]\"` assigns the first item of the array (x=\"5\" on %s)" % line, bool(inproc) and inproc.get("x") == "5", "labels %s" % inproc)
+    m = re.search(r"JSONExtractString\(string, ([^)]*)\)", sql)
+    args = m.group(1).replace(" ", "") if m else None
+    known = ck.known_findings()
+    if args == "'a',1":
+        ck.obligation("an [n] part of a json path reaches ClickHouse as an array index (a number, counted from 1), as the in-process walker reads it", True)
+    elif args == "'a','1'" and INDEX_FINDING in known:
+        ck.report_known(INDEX_FINDING, known[INDEX_FINDING][:200])
+    else:
+        ck.obligation("an [n] part of a json path reaches ClickHouse as an array index (a number, counted from 1), as the in-process walker reads it", False,
+                      "path arguments printed: %s" % args)
+        ck.violation({"property": PID, "kind": "the two engines read a json path differently: the ClickHouse path sends the [n] part as a string (an object key for JSONExtract*), the in-process walker reads an array index",
+                      "query": '{app="x"} | json x="a[0]"', "line": line, "in_process_labels": inproc,
+                      "clickhouse_call": m.group(0) if m else sql[-400:],
+                      "clickhouse_reading": "JSONExtractString(string, 'a','1') looks for the member \"1\" of the value under a; a is an array: '' -> no label x",
+                      "replay": "harness inteng --cases with {\"mode\":\"sql\",\"query\":...} prints the statement; the same query as a chain case gives the in-process labels"})
+
+
 def run(ck):
     dead_code_scan(ck)
     negative_limit_scan(ck)
@@ -688,6 +731,7 @@ def run(ck):
                 c["id"] = 1000000 + i
             r, f = run_cases(ck, cs_, "corpus")
             allcases += r + f
+    json_index_scan(ck)
     if ck.replay:
         outp = os.path.join(ck.work, "replay.jsonl")
         src = json.load(open(ck.replay))
